@@ -21,12 +21,12 @@ model of `serialize_tensor_into`.
       entry per key counts, other keys are never read; `foldExternal`.
 
 E3 (a value_info entry for a graph output produced in the graph: its metadata is merged into the
-output entry) is handled by `merge*` below, under a well-formedness hypothesis.  NOT handled (oracle
-+ correspondence only, see the report): E4 (several output entries with one name), IR<10 graph
-values named like `domain::name/value`.
+output entry) is handled by `merge*` below, under a well-formedness hypothesis; E4 (several output
+entries with one name) by `outdup*` further below (second deepening round).  NOT handled (oracle +
+correspondence only, see the report): IR<10 graph values named like `domain::name/value` (E8).
 
-Everything here is reachable through the driver (`serde.*` answers carry `wfw`, `normw`, `thmw`,
-`serde.tensor` also `rf`, `fields`).  Only core Lean is imported.
+Everything here is reachable through the driver (`serde.*` answers carry `wfw`, `normw`, `thmw`, `wfx`,
+`thmx`, `wfd`, `thmd`, `subd`, `unreadd`; `serde.tensor` also `rf`, `fields`).  Only core Lean is imported.
 -/
 namespace IrVerif.Serde
 open IrVerif.Proto
@@ -205,6 +205,88 @@ def wfFunctionAloneX (f : FunctionP) : Bool := wfFunctionAlone (canonFunction f)
 def normFunctionX (createVI : Bool) (f : FunctionP) : FunctionP := normFunction createVI (canonFunction f)
 def wfModelX (m : ModelP) : Bool := wfModel (canonModel m)
 def normModelX (m : ModelP) : ModelP := normModel (canonModel m)
+
+/-! ## outdup (E4): several graph output entries with one name
+
+`_deserialize_graph` looks every output entry up in `values` (serde.py:869-884) and applies it to the ONE
+`Value` of that name, one entry after the other: type, shape and doc string of the LAST entry of a name
+stay, the metadata dicts are united with `dict.update` (later entry wins per key).  `graph.outputs` then
+lists that value once per entry, and `serialize_graph_into` (serde.py:1921-1923) writes every entry from
+it: the entries of one name come back identical, their number and positions are kept.  `outdup*` does
+this on the proto: every entry of a name that the graph declares (input, initializer, node output) is
+replaced by the union of the entries of that name.  Entries of a name nobody declares are separate
+values (serde.py:872-878) and stay as they are; a group with a malformed entry is left alone (such a
+graph stays outside `WFproto`).  `WFproto` itself (`consOutputs` in `wfGraph`) admits entries with one
+name when they are identical. -/
+
+/-- the union of the metadata of entries applied one after the other (`dict.update`, later wins) -/
+def unionMd (es : List ValueInfoP) : Dict :=
+  es.foldl (fun D e => dictUpdate D (dictOfEntries e.metadata)) []
+
+/-- the output entries named like `vo` -/
+def sameName (outputs : List ValueInfoP) (vo : ValueInfoP) : List ValueInfoP :=
+  outputs.filter fun w => w.name = vo.name
+
+def outdupApplies (scope : List String) (outputs : List ValueInfoP) (vo : ValueInfoP) : Bool :=
+  scope.contains vo.name && (sameName outputs vo).all wfVI
+
+def outdupVI (scope : List String) (outputs : List ValueInfoP) (vo : ValueInfoP) : ValueInfoP :=
+  if outdupApplies scope outputs vo then
+    match findVI outputs vo.name with
+    | some last => { last with metadata := entriesOfDict (unionMd (sameName outputs vo)) }
+    | none => vo
+  else vo
+
+mutual
+def outdupAttr : AttrP → AttrP
+  | .graph n d g => .graph n d (outdupGraph g)
+  | .graphs n d gs => .graphs n d (outdupGraphs gs)
+  | a => a
+
+def outdupGraphs : List GraphP → List GraphP
+  | [] => []
+  | g :: gs => outdupGraph g :: outdupGraphs gs
+
+def outdupAttrs : List AttrP → List AttrP
+  | [] => []
+  | a :: as => outdupAttr a :: outdupAttrs as
+
+def outdupNode : NodeP → NodeP
+  | .mk inputs outputs name opType domain overload doc attrs metadata devcfgs =>
+    .mk inputs outputs name opType domain overload doc (outdupAttrs attrs) metadata devcfgs
+
+def outdupNodes : List NodeP → List NodeP
+  | [] => []
+  | n :: ns => outdupNode n :: outdupNodes ns
+
+def outdupGraph : GraphP → GraphP
+  | .mk name doc nodes initializers inputs outputs valueInfo quant metadata =>
+    let scope := scopeNames (inputs.map (·.name)) (initializers.map (·.name)) (nodeOutNames nodes)
+    .mk name doc (outdupNodes nodes) initializers inputs
+      (outputs.map (outdupVI scope outputs)) valueInfo quant metadata
+end
+
+def outdupFunction (f : FunctionP) : FunctionP :=
+  { f with nodes := outdupNodes f.nodes, attrProtos := outdupAttrs f.attrProtos }
+
+def outdupModel (m : ModelP) : ModelP :=
+  { m with graph := outdupGraph m.graph, functions := m.functions.map outdupFunction }
+
+/-- the canonical pre-form of the third widening: fold (E2 E5 E6 E7), outdup (E4), merge (E3) -/
+def canonDAttr (a : AttrP) : AttrP := mergeAttr (outdupAttr (foldAttr a))
+def canonDNode (n : NodeP) : NodeP := mergeNode (outdupNode (foldNode n))
+def canonDGraph (g : GraphP) : GraphP := mergeGraph (outdupGraph (foldGraph g))
+def canonDFunction (f : FunctionP) : FunctionP := mergeFunction (outdupFunction (foldFunction f))
+def canonDModel (m : ModelP) : ModelP := mergeModel (outdupModel (foldModel m))
+
+def wfGraphD (outer : Scopes) (g : GraphP) : Bool := wfGraph outer (canonDGraph g)
+def normGraphD (g : GraphP) : GraphP := normGraph (canonDGraph g)
+def wfFunctionAloneD (f : FunctionP) : Bool := wfFunctionAlone (canonDFunction f)
+def normFunctionD (createVI : Bool) (f : FunctionP) : FunctionP := normFunction createVI (canonDFunction f)
+def wfModelD (m : ModelP) : Bool := wfModel (canonDModel m)
+def normModelD (m : ModelP) : ModelP := normModel (canonDModel m)
+def wfNodeAloneD (n : NodeP) : Bool := wfNodeAlone (canonDNode n)
+def wfAttrD (scopes : Scopes) (a : AttrP) : Bool := wfAttr scopes (canonDAttr a)
 
 /-! ## `serialize_tensor_into`, field by field (serde.py:2164-2205) -/
 
